@@ -10,7 +10,7 @@ from fractions import Fraction
 from ..gen.ledger import Opts, gen_ledger
 from ..model import hmrc
 from ..probe import probe
-from ..util import rng_for, sha, fr, dstr, iso, d as pdate, ZERO, TOL_10DP, TOL_FINE
+from ..util import cap_viols, rng_for, sha, fr, dstr, iso, d as pdate, ZERO, TOL_10DP, TOL_FINE
 from . import ledger_core as lc
 
 PROP = "C11"
@@ -559,7 +559,7 @@ def run_shard(desc):
         if len(samples) < 1 and not vs and "ok" in ob and len(var) <= 9:
             samples.append({"kind": kind, "ledger_with_marked_event": lc.brief(var),
                             "marked": [dict(e) for e in marked_events(var)]})
-    return {"evaluations": len(reqs), "nontrivial_hashes": hashes, "counters": cnt, "violations": viols[:20], "samples": samples}
+    return {"evaluations": len(reqs), "nontrivial_hashes": hashes, "counters": cnt, "violations": cap_viols(viols), "samples": samples}
 
 
 def replay(case):
